@@ -61,7 +61,7 @@ func (endpoint *PairSetup) ServeHTTP(response http.ResponseWriter, request *http
 		session.SetPairSetupHandler(ctrl)
 	}
 
-	if in, err = util.NewTLV8ContainerFromReader(request.Body); err == nil {
+	if in, err = util.NewTLV8ContainerFromReader(http.MaxBytesReader(response, request.Body, maxRequestBodySize)); err == nil {
 		out, err = ctrl.Handle(in)
 	}
 
